@@ -53,11 +53,11 @@ class MuxWorld(World):
 
     # ------------------------------------------------------------------------------------------
     def gen_config(self, rng, prop):
-        dw = rng.choice([1, 2, 3, 4, 5, 8, 8, 8, 16])
-        aw = rng.range(1, 6)
-        al = rng.choice([0, 0, 0, 1, 2])
+        dw = rng.choice([1, 2, 3, 4, 5, 8, 8, 8, 16, 32])
+        aw = rng.range(1, 6) if not rng.chance(0.1) else rng.range(7, 8)
+        al = rng.choice([0, 0, 0, 1, 2, 3])
         regs = []
-        for i in range(rng.range(0, 6)):
+        for i in range(rng.range(0, 6) if not rng.chance(0.1) else rng.range(7, 10)):
             w = rng.choice([0, 1, max(dw - 1, 1), dw, dw + 1, 2 * dw, 2 * dw + 3, 3 * dw, 4 * dw])
             acc = rng.choice(["r", "w", "rw", "rw"])
             size = (w + dw - 1) // dw + rng.choice([0, 0, 0, 1, 2])
@@ -77,6 +77,15 @@ class MuxWorld(World):
             for r in regs:
                 r["size"] = (r["w"] + dw - 1) // dw
             aw = max(aw, 4)
+        if rng.chance(0.04):
+            # wide map, registers far apart: the shadow has to grow a lot to separate them
+            aw = rng.choice([16, 24, 32, 40, 48])
+            al = 0
+            regs = []
+            for a_ in [0, 1 << (aw - 1), (1 << (aw - 2)) + 8][:rng.range(2, 3)]:
+                w_ = rng.choice([1, dw, 2 * dw])
+                regs.append({"w": w_, "acc": rng.choice(["r", "w", "rw", "rw"]),
+                             "size": (w_ + dw - 1) // dw, "align": None, "addr": a_})
         ov = rng.choice([None, None, 0, 1, 2, 3])
         ov2 = rng.choice([x for x in [None, 0, 1, 2, 3] if x != ov])
         mode = rng.wchoice([("proto", 5), ("mixed", 3), ("raw", 2)])
